@@ -171,11 +171,61 @@ class Decorator(object):
             t['over'] = over
 
 
+def constrained_ref_sites(t, member_name, out):
+    """(component name, referenced type) of every constrained reference: the
+    key under which the library caches the compiled referenced type
+    (compile_user_type: per module, referenced type and component name; a list
+    element has the name '')."""
+    k = t['k']
+    if k == 'REF' and t.get('over') and member_name is not None:
+        out.append((member_name, t['name']))
+    if k in ('SEQUENCE', 'SET'):
+        for m in all_members(t):
+            constrained_ref_sites(m['t'], m['name'], out)
+    elif k == 'CHOICE':
+        for m in t['root'] + (t['ext'] or []):
+            constrained_ref_sites(m['t'], m['name'], out)
+    elif k in ('SEQUENCE OF', 'SET OF'):
+        constrained_ref_sites(t['elem'], '', out)
+    return out
+
+
+def add_twins(rng, mod):
+    """For every constrained reference add a second site that references the
+    SAME type under the SAME component name WITHOUT the constraint (and, half
+    of the time, a third one before it in the module): the compiled referenced
+    type is shared between such sites, so a constraint applied to one reference
+    in place would leak to the others."""
+    sites = []
+    for _, t in mod['types']:
+        constrained_ref_sites(t, None, sites)
+    n = 0
+    for name, refname in sites[:6]:
+        n += 1
+        ref = {'k': 'REF', 'name': refname}
+        if name == '':
+            twin = {'k': 'SEQUENCE OF', 'elem': ref, 'size': None}
+        else:
+            twin = {'k': rng.choice(['SEQUENCE', 'SEQUENCE', 'SET']), 'ext': None,
+                    'root': [{'name': name, 't': ref, 'opt': None}]}
+            if rng.random() < .3:
+                twin = {'k': 'CHOICE', 'ext': None, 'root': [{'name': name, 't': ref, 'opt': None}]}
+        entry = ('Tw%d' % n, twin)
+        if rng.random() < .5:
+            mod['types'].append(entry)
+        else:
+            # before the constrained site (but after the referenced type itself: order is irrelevant
+            # to the library, the referenced type only has to exist)
+            mod['types'].insert(0, entry)
+    return mod
+
+
 def decorate(rng, mod):
     mod['values'] = list(mod.get('values') or [])
     d = Decorator(rng, mod)
     for _, t in mod['types']:
         d.decorate(t)
+    add_twins(rng, mod)
     return mod
 
 
